@@ -130,6 +130,12 @@ def run_case(data):
                 continue
         else:
             sid = w.next_local_id()
+        reserved = [x for x in known if m.get(x).state == M.RES_LOCAL]
+        if reserved and ch.chance(80):
+            # promised streams awaiting their response get their share of calls (alt-svc, data, end, informational
+            # and final blocks in every order)
+            sid = ch.pick(sorted(reserved))
+            r.labels.add('call-on-promised-stream')
         op = ch.weighted([(6, 'headers'), (5, 'data'), (2, 'end'), (2, 'push'), (1, 'prioritize'), (2, 'altsvc'),
                           (1, 'rst'), (4, 'peer-open'), (1, 'peer-push'), (1, 'peer-end'), (2, 'peer-info'),
                           (1, 'bad-priority')])
